@@ -638,3 +638,10 @@ PROPS["C18"]["rule"] += " In a third of the run-path cases the OnMessage consume
 PROPS["C11"]["rule"] += " One random case in four gives closing a connection a latency of 1 ms .. 5 s (reference policy and run alike)."
 PROPS["C10"]["rule"] += " One random policy case in four gives closing a connection a latency of 1 ms .. 5 s."
 PROPS["C12"]["rule"] += " Two-interfaces sub-check (1 500 / 150 000 cases, real clock, judged by labels only): two Advertisers sharing Context, Metrics and a logger whose lines take 0.1 ms each hear an RA 0..250 us apart; each interface must count exactly its own inconsistencies."
+
+_OVERLAP = (" Overlapping-applications sub-check (400 / 40 000 cases): one application of a plugin value is held inside its %s lookup while a second application"
+            " (the same plugin value, or another one with its own lookup) and then a burst of four run to completion; every result must equal what the same application yields alone.")
+PROPS["C13"]["rule"] += _OVERLAP % "address" + " Histories contain steps that change only the kernel flags of an address. OS part, overlapping listings (300 / 20 000 cases): two AddressesByIndex calls at once, the first held inside the rtnetlink dump; when the dump fails both must report an error, otherwise both must return the full listing."
+PROPS["C14"]["rule"] += _OVERLAP % "address"
+PROPS["C15"]["rule"] += _OVERLAP % "route"
+PROPS["C16"]["rule"] += " The builder keeps the option objects of the previous RA of each case and their rendering: building the next RA must not change them."
